@@ -278,6 +278,82 @@ def run_traversal(chk, F):
            key='E2|rec_for_each_simplex|direction')
 
 
+def run_cache_protocol(chk, F):
+    """The cache protocol: an empty filtration_vect_ means "not computed" and nothing else does - a cache built with
+    an ignorer or a custom comparator is legitimately smaller than / ordered differently from the default one. The
+    lazy initialiser therefore recomputes exactly when the cache is empty."""
+    fs = F.funcs('maybe_initialize_filtration', unit='st_tbb')
+    if len(fs) != 1:
+        raise AnalysisBroken('C03: maybe_initialize_filtration not found')
+    f = fs[0]
+    ifs = [x for x in ir.walk(f['body']) if x.get('k') == 'IfStmt' and
+           ir.contains(x.get('then'), lambda y: ir.is_call(y) and ir.call_name(y) == 'initialize_filtration')]
+    ok = len(ifs) == 1 and ir.show(ifs[0]['cond']).replace(' ', '') in (
+        'filtration_vect_.empty()', '(filtration_vect_.size()==0)', '!filtration_vect_.size()')
+    chk.ob('E2-cache-protocol', 'maybe_initialize_filtration recomputes the cache exactly when it is empty',
+           '%s:%d' % (H, f['line']), ok, '' if ok else 'the recomputation is guarded by `%s`: a cache deliberately '
+           'built with an ignorer or another comparator is discarded and replaced by the default order'
+           % (ir.show(ifs[0]['cond']) if ifs else '?'), key='E2|maybe_initialize_filtration|empty-means-not-computed')
+
+
+def run_lifetimes(chk, F):
+    """unify_lifetimes (min) and intersect_lifetimes (max) for arithmetic values: on the three relations of (f1, f2)
+    the helper overwrites f1 and returns true exactly when f1 changes (NaN excluded, as the property states).
+    make_filtration_non_decreasing returns their accumulated result."""
+    want = {'unify_lifetimes': 'gt', 'intersect_lifetimes': 'lt'}
+    n = 0
+    for name, rel_changes in want.items():
+        fs = [f for f in F.funcs(name, unit='st_tbb') if f['file'].endswith('filtration_value_utils.h')
+              and len(f['params']) == 2]
+        if not fs:
+            raise AnalysisBroken('C03: %s not found' % name)
+        for f in fs:
+            a, b = f['params'][0]['n'], f['params'][1]['n']
+            for nan_arm in (True, False):
+                bad = None
+                for relv in ('lt', 'eq', 'gt'):
+                    assigned = []
+
+                    def oracle(e, env, relv=relv, nan_arm=nan_arm, assigned=assigned, a=a, b=b):
+                        k = e.get('k')
+                        t = ir.show(e)
+                        if 'has_quiet_NaN' in t and k in ('DependentScopeDeclRefExpr', 'DeclRefExpr', 'MemberExpr'):
+                            return nan_arm
+                        if ir.is_call(e) and ir.call_name(e) == 'isnan':
+                            return False
+                        if k in ('BinaryOperator', 'CXXOperatorCallExpr') and e.get('op') in ('<', '>', '<=', '>='):
+                            c = e.get('c') or []
+                            if k == 'CXXOperatorCallExpr':
+                                c = c[1:]
+                            l, r = ir.show(c[0]), ir.show(c[1])
+                            if (l, r) == (a, b):
+                                return predeval.rel_truth(relv, e['op'], False)
+                            if (l, r) == (b, a):
+                                return predeval.rel_truth(relv, e['op'], True)
+                        if k in ('BinaryOperator', 'CXXOperatorCallExpr') and e.get('op') == '=':
+                            c = e.get('c') or []
+                            l = ir.show(c[0] if k == 'BinaryOperator' else c[1])
+                            if l == a and ir.show(c[-1]) == b:
+                                assigned.append(True)
+                                return 0
+                        return None
+                    try:
+                        got = predeval.Evaluator(oracle).run(f['body'])
+                    except predeval.Unknown as ex:
+                        raise AnalysisBroken('C03: %s has a shape the evaluator does not know: %s' % (name, ex))
+                    exp = relv == rel_changes
+                    if (got is not exp or bool(assigned) != exp) and bad is None:
+                        bad = (relv, got, bool(assigned))
+                n += 1
+                chk.ob('E8-lifetimes', '%s (%s arm) changes f1 and returns true exactly when f1 %s f2' % (
+                    name, 'NaN-aware' if nan_arm else 'integral', '>' if rel_changes == 'gt' else '<'),
+                    '%s:%d' % (rel(f['file']), f['line']), bad is None,
+                    '' if bad is None else 'for f1 %s f2 it returns %s and %s f1' % (
+                        {'lt': '<', 'eq': '==', 'gt': '>'}[bad[0]], bad[1], 'overwrites' if bad[2] else 'keeps'),
+                    key='E8|%s|%s' % (name, 'nan' if nan_arm else 'int'))
+    chk.expect_count('E8-lifetimes', 'helper arms', n, 4)
+
+
 def run(tier, replay=None):
     chk = Check('C03', tier,
                 'Static decision of structural clauses of the filtration order of the simplex tree: the comparator '
@@ -292,6 +368,8 @@ def run(tier, replay=None):
     run_order(chk, F)
     run_cache(chk, F)
     run_traversal(chk, F)
+    run_cache_protocol(chk, F)
+    run_lifetimes(chk, F)
     chk.assumptions += ['filtration values obey trichotomy (no NaN), as the property states', 'clang 14 parser',
                         'tables/c03.json lists the mutators the library documents as self-invalidating']
     return chk
